@@ -72,3 +72,22 @@ func H_C02_truncated() {
 	vAssert(err != nil && r == nil, "a truncated stream is a read error, not a request")
 	vReach("truncated")
 }
+
+func init() { vReg("H_C02_modify_deep", H_C02_modify_deep) }
+
+// Modify requests one level deeper than the general tree (the values inside the SETs of a
+// change's PartialAttribute are nodes too), with a narrow tree elsewhere: one change whose
+// PartialAttribute has up to 3 children, each with up to 2 children.
+func H_C02_modify_deep() {
+	nc := vNetConn("c")
+	vConnFeed(nc, vPacket("frame", 6, "def=2;=2;1=2;1.1=1;1.1.0=2;1.1.0.1=3"))
+	c, err := newConn(context.Background(), 1, nc, vLogger(), vMux())
+	if err != nil {
+		return
+	}
+	r, err := c.readRequest(1)
+	vReach("returned")
+	if err == nil && r != nil {
+		vReach("decoded")
+	}
+}
